@@ -93,7 +93,7 @@ def run_case(item):
     isr = IntermediateStates(gs, variant)
     m = SecularMatrix(isr)
     i1 = idx_for(sp1)
-    i2 = idx_for(sp2, sp1.count("h"), sp1.count("p"))
+    i2 = idx_for(sp2, sp1.count("h"), sp1.count("p")) if isinstance(sp2, str) else ""
     s1, s2 = get_symbols(i1), get_symbols(i2)
     o1 = tuple(IR.idx_ir(s) for s in s1 if s.space == "occ")
     v1 = tuple(IR.idx_ir(s) for s in s1 if s.space == "virt")
@@ -114,6 +114,23 @@ def run_case(item):
         A = MRef("isr", variant, singles, order, sp1, o1, v1, sp2, subtract_gs=subtract_gs, mvp=True)
         target = s1
         res["api"] = f"{pre}.mvp_block_order({order}, '{sp1}', '{sp1},{sp2}', '{i1}', {subtract_gs})"
+    elif kind == "mvp_sum":
+        # SecularMatrix.mvp only sums block contributions: compared with the sum, over the
+        # harness' own ADC(n) truncation table (class mu present if mu <= n // 2, block
+        # (mu, nu) through order n - (mu + nu)), of the individually verified contributions
+        n_adc = sp2
+        SPL = {"pp": ["ph", "pphh"], "ip": ["h", "phh"], "ea": ["p", "pph"],
+               "dip": ["hh", "phhh"], "dea": ["pp", "ppph"]}[variant]
+        mu = SPL.index(sp1)
+        out = m.mvp(n_adc, sp1, i1, order, subtract_gs)
+        A = S.Zero
+        for nu, sr in enumerate(SPL):
+            if mu > n_adc // 2 or nu > n_adc // 2 or order > n_adc - (mu + nu):
+                continue
+            A += m.mvp_block_order(order, sp1, f"{sp1},{sr}", i1, subtract_gs)
+        A = sympify(A).expand()
+        target = s1
+        res["api"] = f"{pre}.mvp({n_adc}, '{sp1}', '{i1}', order={order}, {subtract_gs}) vs the sum of its blocks"
     elif kind == "transpose":
         out = m.isr_matrix_block(order, f"{sp1},{sp2}", f"{i1},{i2}", subtract_gs)
         A = sympify(m.isr_matrix_block(order, f"{sp2},{sp1}", f"{i2},{i1}", subtract_gs)).expand()
@@ -243,8 +260,16 @@ def main():
                             items.append(("transpose", variant, False, n, sp1, sp2, True, mt))
                         if not quick and n <= 2 and mt == (nh, np_):
                             items.append(("isr", variant, True, n, sp1, sp2, True, mt))
+    # SecularMatrix.mvp (sums blocks): (kind, variant, singles, order, space, adc_order, subtract_gs, model)
+    for variant, (lo, hi) in SP2.items():
+        nh, np_ = max(hi.count("h"), 2), max(hi.count("p"), 2)
+        for n_adc, o, sp in ((2, 0, lo), (2, 1, lo), (1, 1, lo), (2, 0, hi)) + \
+                (() if quick else ((2, 2, lo), (3, 1, lo), (3, 1, hi))):
+            if quick and variant in ("dip", "dea") and sp == hi:
+                continue
+            items.append(("mvp_sum", variant, False, o, sp, n_adc, True, (nh, np_)))
     # heavier cases first
-    items.sort(key=lambda it: -(it[3] * 10 + len(it[4]) + len(it[5])))
+    items.sort(key=lambda it: -(it[3] * 10 + len(it[4]) + (len(it[5]) if isinstance(it[5], str) else 6)))
     results = pmap(run_case, items, limit=1500 if quick else 14000, workers=15)
     guards = [0, 0]
     for r in results:
